@@ -14,6 +14,9 @@
 (*                  execution its choices describe (Exec);                 *)
 (*   RefinesLaws  - every update outcome satisfies LawUpdConstrained,      *)
 (*                  LawUpdKept, LawUpdWeight, LawUpdDiscard;               *)
+(*   RegenRefines - every regenerate outcome satisfies LawRegenUnselected, *)
+(*                  LawRegenWeight, LawRegenEmpty; selected choices are   *)
+(*                  redrawn; the discard holds their old values;           *)
 (*   UndoRestores - applying the returned discard with the original        *)
 (*                  arguments gives back the visible trace and -weight.    *)
 (* (Masking the discard with the flag AFTER the edit, or returning branch  *)
@@ -158,6 +161,52 @@ OUpd(p, it, args2, targs, cons, pick) ==
              fin == st[p.n]
          IN  OR(IT("scan", args2, 0, fin.score, Tp(<<fin.carry, IF p.n = 0 THEN Nn ELSE Stack(fin.outs)>>), fin.subs, 0),
                 fin.w, fin.disc, TRUE)
+
+RECURSIVE ORegen(_, _, _, _, _, _)
+\* regenerate (Distribution.edit_regenerate, RegenerateRequestHandler, Scan.edit_regenerate; mask / switch / vmap do
+\* not accept the request): S = selected addresses relative to p; a selected choice takes the sampler's value, the
+\* discard is the Update that writes the old value back
+ORegen(p, it, args2, targs, S, pick) ==
+  CASE p.k = "dist" ->
+         IF <<>> \in S
+         THEN LET v == pick[<<>>] fwd == LP(p.n, args2[1].i, v)
+              IN  OR(IT("dist", args2, v, fwd, I(v), <<>>, 0), fwd - it.score, (<<>> :> it.val), TRUE)
+         ELSE LET fwd == LP(p.n, args2[1].i, it.val)
+              IN  OR(IT("dist", args2, it.val, fwd, it.ret, <<>>, 0), fwd - it.score, EmptyF, FALSE)
+    [] p.k = "static" ->
+         LET st[j \in 0..Len(p.sites)] ==
+               IF j = 0 THEN [env |-> <<>>, tenv |-> <<>>, subs |-> <<>>, score |-> 0, w |-> 0, disc |-> EmptyF]
+               ELSE LET s  == p.sites[j]
+                        q  == st[j - 1]
+                        a  == [i \in 1..Len(s.args) |-> EvalE(s.args[i], args2, <<>>, q.env)]
+                        ta == [i \in 1..Len(s.args) |-> TaintE(s.args[i], targs, <<>>, q.tenv)]
+                        r  == ORegen(s.callee, it.subs[j], a, ta, SubSet(s.addr, S), SubMap(s.addr, pick))
+                    IN  [env |-> Append(q.env, r.it.ret), tenv |-> Append(q.tenv, r.rt), subs |-> Append(q.subs, r.it),
+                         score |-> q.score + r.it.score, w |-> q.w + r.w, disc |-> q.disc @@ PrefixMap(s.addr, r.disc)]
+             fin == st[Len(p.sites)]
+         IN  OR(IT("static", args2, 0, fin.score, EvalE(p.ret, args2, <<>>, fin.env), fin.subs, 0), fin.w, fin.disc,
+                TaintE(p.ret, targs, <<>>, fin.tenv))
+    [] p.k = "scan" ->                      \* the selection is handed to every step unchanged (index levels are transparent)
+         LET st[i \in 0..p.n] ==
+               IF i = 0 THEN [carry |-> args2[1], tc |-> targs[1], subs |-> <<>>, score |-> 0, w |-> 0, disc |-> EmptyF, outs |-> <<>>]
+               ELSE LET q  == st[i - 1]
+                        ip == <<IdxStr(i - 1)>>
+                        x  == IF args2[2].t = "n" THEN Nn ELSE Unstack(args2[2], i)
+                        ta == IF ScanRetagsAll THEN <<TRUE, TRUE>> ELSE <<q.tc, targs[2]>>
+                        r  == ORegen(p.subs[1], it.subs[i], <<q.carry, x>>, ta, S, SubMap(ip, pick))
+                    IN  [carry |-> r.it.ret.k[1], tc |-> r.rt, subs |-> Append(q.subs, r.it), score |-> q.score + r.it.score,
+                         w |-> q.w + r.w, disc |-> q.disc @@ PrefixMap(ip, r.disc), outs |-> Append(q.outs, r.it.ret.k[2])]
+             fin == st[p.n]
+         IN  OR(IT("scan", args2, 0, fin.score, Tp(<<fin.carry, IF p.n = 0 THEN Nn ELSE Stack(fin.outs)>>), fin.subs, 0),
+                fin.w, fin.disc, TRUE)
+RECURSIVE SupportsRegen(_)
+SupportsRegen(p) == CASE p.k = "dist" -> TRUE
+                      [] p.k = "static" -> \A j \in 1..Len(p.sites) : SupportsRegen(p.sites[j].callee)
+                      [] p.k = "scan" -> SupportsRegen(p.subs[1])
+                      [] OTHER -> FALSE
+RECURSIVE SelTerm(_)
+SelTerm(S) == IF S = {} THEN [t |-> "none"]
+              ELSE LET a == CHOOSE a \in S : TRUE IN [t |-> "or", k |-> <<[t |-> "lf", p |-> a], SelTerm(S \ {a})>>]
 ---------------------------------------------------------------------------
 VARIABLES pid, cur, old, last
 vars == <<pid, cur, old, last>>
@@ -186,7 +235,22 @@ Undo == /\ last.op = "upd"
              IN  /\ cur' = r.it
                  /\ last' = [op |-> "undo", w |-> r.w, disc |-> r.disc, tags |-> TagsOf(t), cons |-> last.disc, fw |-> last.w]
         /\ UNCHANGED <<pid, old>>
-Next == Sim \/ Upd \/ Undo
+StaticAddrs == {StaticPart(a) : a \in Addrs(P)}
+Regen == /\ cur # NoIT /\ last.op = "sim" /\ SupportsRegen(P)
+         /\ \E a2 \in Args : \E S \in SUBSET StaticAddrs : \E pk \in Picks :
+              LET t == HonestT(cur.args, a2)
+                  r == ORegen(P, cur, a2, t, S, pk)
+              IN  /\ cur' = r.it /\ old' = cur
+                  /\ last' = [op |-> "regen", w |-> r.w, disc |-> r.disc, tags |-> TagsOf(t), cons |-> EmptyF, sel |-> S, pk |-> pk]
+         /\ UNCHANGED pid
+UndoRegen == /\ last.op = "regen" /\ P.k # "scan"          \* Scan returns a VectorRequest it cannot apply itself (finding KF-C06-2)
+             /\ \E pk \in Picks :
+                  LET t == HonestT(cur.args, old.args)
+                      r == OUpd(P, cur, old.args, t, last.disc, pk)
+                  IN  /\ cur' = r.it
+                      /\ last' = [op |-> "undo", w |-> r.w, disc |-> r.disc, tags |-> TagsOf(t), cons |-> last.disc, fw |-> last.w]
+             /\ UNCHANGED <<pid, old>>
+Next == Sim \/ Upd \/ Undo \/ Regen \/ UndoRegen
 Spec == Init /\ [][Next]_vars
 
 Consistent == cur # NoIT => LET T == AbsT(P, cur) IN LawVisited(P, T) /\ LawScore(P, T) /\ LawRet(P, T)
@@ -196,6 +260,13 @@ RefinesLaws == last.op = "upd" =>
    /\ LawUpdKept(P, pre, post, last.tags, last.cons)
    /\ LawUpdWeight(P, pre, post, last.tags, last.cons, last.w)
    /\ LawUpdDiscard(P, pre, post, last.tags, last.cons, last.disc)
+RegenRefines == last.op = "regen" =>
+   LET pre == AbsT(P, old)  post == AbsT(P, cur)  sel == SelTerm(last.sel) IN
+   /\ LawRegenUnselected(pre, post, sel)
+   /\ LawRegenWeight(pre, post, last.w)
+   /\ LawRegenEmpty(pre, post, sel, last.w, post.args = pre.args)
+   /\ \A a \in DOMAIN post.choices : Selected(sel, a) => post.choices[a] = last.pk[a]          \* selected choices are redrawn
+   /\ last.disc = [a \in {b \in DOMAIN pre.choices : Selected(sel, b)} |-> pre.choices[a]]      \* the discard writes the old values back
 UndoRestores == last.op = "undo" =>
    LET a == AbsT(P, cur)  b == AbsT(P, old) IN
    a.choices = b.choices /\ a.score = b.score /\ a.ret = b.ret /\ a.args = b.args /\ last.w = -last.fw
